@@ -95,7 +95,7 @@ impl<'io, ST: StateType> StreamOxide<'io, ST> {
 
 /// Returns true if the window_bits parameter is valid.
 fn invalid_window_bits(window_bits: i32) -> bool {
-    (window_bits != MZ_DEFAULT_WINDOW_BITS) && (-window_bits != MZ_DEFAULT_WINDOW_BITS)
+    (window_bits != MZ_DEFAULT_WINDOW_BITS) && (window_bits != -MZ_DEFAULT_WINDOW_BITS)
 }
 
 /// Try to fully decompress the data provided in the stream struct, with the specified
